@@ -57,6 +57,7 @@ func tfSchema() *schema.BodySchema {
 					"count": {IsOptional: true, Constraint: schema.LiteralType{Type: cty.Number}},
 					"note":  {IsOptional: true, Constraint: schema.AnyExpression{OfType: cty.String}},
 					"zeta":  {IsOptional: true, Constraint: schema.LiteralType{Type: cty.Bool}},
+					"pair":  {IsOptional: true, Constraint: schema.Tuple{Elems: []schema.Constraint{schema.LiteralType{Type: cty.String}, schema.LiteralType{Type: cty.String}}}},
 				}}},
 				"entry": {Type: schema.BlockTypeMap, Labels: []*schema.LabelSchema{{Name: "key"}}, Body: &schema.BodySchema{Attributes: map[string]*schema.AttributeSchema{
 					"val":  {IsOptional: true, Constraint: schema.LiteralType{Type: cty.String}},
@@ -93,6 +94,10 @@ func tfSchema() *schema.BodySchema {
 					"title":   {IsRequired: true, Constraint: schema.LiteralType{Type: cty.String}},
 				},
 				Blocks: map[string]*schema.BlockSchema{
+					"extra": {Body: &schema.BodySchema{Attributes: map[string]*schema.AttributeSchema{
+						"e1": {IsOptional: true, Constraint: schema.LiteralType{Type: cty.String}},
+						"e2": {IsOptional: true, Constraint: schema.LiteralType{Type: cty.Number}},
+					}}},
 					"meta": {MinItems: 1, Labels: []*schema.LabelSchema{{Name: "kind"}}, Body: &schema.BodySchema{Attributes: map[string]*schema.AttributeSchema{
 						"key": {IsRequired: true, Constraint: schema.LiteralType{Type: cty.String}},
 						"obj": {IsRequired: true, Constraint: schema.LiteralType{Type: cty.Object(map[string]cty.Type{"a": cty.String, "b": cty.Number})}},
@@ -459,12 +464,19 @@ func (g *tfGen) resource(i int) {
 		if r.Intn(3) == 0 {
 			extra = "    count = 2\n"
 		}
+		if k == 0 && i%2 == 1 {
+			// a tuple written in the first element (no random draw)
+			extra += "    pair = [\"x0\", \"x1\"]\n"
+		}
 		fmt.Fprintf(&g.sb, "  item {\n    val = %s\n%s  }\n", nestedVal("val"), extra)
 		items++
 	}
 	if items > 0 {
 		// a self reference into an element of a nested list block (no random draw: the streams stay as they were)
 		txt := "self.item[0]." + []string{"val", "note", "zeta"}[(i+items)%3]
+		if i%2 == 1 {
+			txt = fmt.Sprintf("self.item[0].pair[%d]", items%2)
+		}
 		g.refs = append(g.refs, TfRef{Addr: txt, Attr: "elem", Declared: true, AdmitsRef: true})
 		fmt.Fprintf(&g.sb, "  elem = %s\n", txt)
 	}
